@@ -288,7 +288,7 @@ func Run(r *rt.Run) error {
 	}
 	nRand := 40
 	if r.Thorough() {
-		nRand = 600
+		nRand = 6000
 	}
 	safe := []vclass{}
 	for _, vc := range vclasses {
@@ -357,6 +357,35 @@ func Run(r *rt.Run) error {
 		{name: "m", gtags: g2, dims: []string{"host"}, tmax: 1010, pts: []sItem{}},
 		{name: "m", gtags: g2, dims: []string{"host"}, tmax: 1020, pts: []sItem{{tags: g2, fields: map[string]any{"f": int64(2)}, t: 1012}, {tags: g2, fields: map[string]any{"f": int64(3)}, t: 1020}}},
 	}, "b/empty")
+	nRandB := 20
+	if r.Thorough() {
+		nRandB = 1500
+	}
+	for i := 0; i < nRandB; i++ {
+		var items []bItem
+		tm := 1000 + r.Rand.Intn(20)
+		g := tagsets[1+r.Rand.Intn(len(tagsets)-1)]
+		dims := []string{}
+		for k := range g {
+			dims = append(dims, k)
+		}
+		sort.Strings(dims)
+		for nb := 1 + r.Rand.Intn(3); nb > 0; nb-- {
+			b := bItem{name: []string{"m", "cpu load"}[r.Rand.Intn(2)], gtags: g, dims: dims, byName: r.Rand.Intn(2) == 0}
+			for np := 1 + r.Rand.Intn(3); np > 0; np-- {
+				tm += r.Rand.Intn(4)
+				f := map[string]any{}
+				for j := 1 + r.Rand.Intn(2); j > 0; j-- {
+					f[fmt.Sprintf("f%d", j)] = vclasses[r.Rand.Intn(len(vclasses))].v
+				}
+				b.pts = append(b.pts, sItem{tags: g, fields: f, t: tm})
+			}
+			tm += r.Rand.Intn(3)
+			b.tmax = tm
+			items = append(items, b)
+		}
+		emitB(items, fmt.Sprintf("br/%d", i))
+	}
 	runArchive(r, t)
 	r.Extra["value_classes"] = len(vclasses)
 	r.Extra["tag_sets"] = len(tagsets)
